@@ -122,6 +122,9 @@ fn run_cli(t: &Truth, toml: Option<&str>, mode: &[&str]) -> Result<(BTreeSet<Str
 struct TSym {
     bc: u16,
     internal: bool,
+    /// false: a no-data TDH; true: a data event whose readout frame is split over two pages (TDT packet_done = 0,
+    /// next page IHW + TDH with continuation = 1 and the same BC): the continuation TDH is not a new trigger
+    split: bool,
 }
 
 struct PeriodProduct {
@@ -134,7 +137,7 @@ impl Sys for PeriodProduct {
     type Key = (Option<u16>, Vec<u8>);
     type Obs = bool;
     fn enabled(&self, _h: &[TSym]) -> Vec<TSym> {
-        self.bcs.iter().flat_map(|b| [false, true].into_iter().map(move |i| TSym { bc: *b, internal: i })).collect()
+        self.bcs.iter().flat_map(|b| [(false, false), (true, false), (true, true), (false, true)].into_iter().map(move |(i, sp)| TSym { bc: *b, internal: i, split: sp })).collect()
     }
     fn initial_key(&self) -> Self::Key {
         (None, vec![])
@@ -148,26 +151,42 @@ impl Sys for PeriodProduct {
         st.word(&words::ihw(0x7)).map_err(mk)?;
         let mut last_internal: Option<u16> = None;
         let mut e45 = false;
+        let mut page_pos = 0u64;
+        let mut page_no = 0u16;
+        let mut words_in_page = 1u64; // the IHW
+        let frame = fp_model::alpide::conforming_frame(&[0x20, 0x21, 0x22], 0x12, &[], true);
         for (i, s) in hist.iter().enumerate() {
-            let w = words::Tdh { trigger_type: 1, internal: s.internal, no_data: true, continuation: false, bc: s.bc, orbit: r.orbit }.encode();
-            let msgs = val::error_texts(&st.word(&w).map_err(mk)?);
-            let off = 64 + 10 * (1 + i as u64);
-            e45 = false;
-            for m in &msgs {
-                if let Some((o, codes)) = rules::parse_error_message(m) {
-                    if codes.iter().any(|c| c == "E45") {
-                        if o != off {
-                            return Err(Viol { signature: "period:E45-not-at-the-TDH".into(), description: format!("E45 at {o:#x}, the TDH is at {off:#x}") });
+            let last = i + 1 == hist.len();
+            let mut feed = |st: &mut val::CdpStepper, w: &[u8], words_in_page: &mut u64, page_pos: u64| -> Result<(bool, bool), Viol> {
+                let msgs = val::error_texts(&st.word(w).map_err(mk)?);
+                let off = page_pos + 64 + 10 * *words_in_page;
+                *words_in_page += 1;
+                let mut here = false;
+                let mut elsewhere = false;
+                for m in &msgs {
+                    if let Some((o, codes)) = rules::parse_error_message(m) {
+                        if codes.iter().any(|c| c == "E45") {
+                            if o == off {
+                                here = true;
+                            } else {
+                                elsewhere = true;
+                            }
                         }
-                        e45 = true;
                     }
                 }
+                Ok((here, elsewhere))
+            };
+            let tdh = words::Tdh { trigger_type: 1, internal: s.internal, no_data: !s.split, continuation: false, bc: s.bc, orbit: r.orbit };
+            let (here, elsewhere) = feed(&mut st, &tdh.encode(), &mut words_in_page, page_pos)?;
+            if elsewhere {
+                return Err(Viol { signature: "period:E45-not-at-the-TDH".into(), description: format!("E45 reported away from the TDH that caused it [TDH history {:?}]", hist) });
             }
+            e45 = here;
             let want = match (s.internal, last_internal) {
                 (true, Some(p)) => (s.bc as i32 - p as i32).rem_euclid(3564) as u16 != self.period,
                 _ => false,
             };
-            if i + 1 == hist.len() && e45 != want {
+            if last && e45 != want {
                 return Err(Viol {
                     signature: format!("period:E45:{}", if want { "missed" } else { "false-alarm" }),
                     description: format!("period {}: internal-trigger BCs {:?} then {:?}: distance mod 3564 differs from the period = {want}, E45 reported = {e45} [TDH history {:?}]", self.period, last_internal, s, hist),
@@ -175,6 +194,34 @@ impl Sys for PeriodProduct {
             }
             if s.internal {
                 last_internal = Some(s.bc);
+            }
+            if s.split {
+                // lane 0 on this page, TDT packet_done = 0, next page: IHW, TDH continuation, lanes 1 and 2, TDT done
+                let mut spurious = false;
+                let r0 = feed(&mut st, &frame[0], &mut words_in_page, page_pos)?;
+                let r1 = feed(&mut st, &words::Tdt::done(false), &mut words_in_page, page_pos)?;
+                spurious |= r0.0 | r0.1 | r1.0 | r1.1;
+                page_no += 1;
+                page_pos += 0x2000;
+                let mut r2 = r.clone();
+                r2.pages_counter = page_no;
+                st.set_rdh(&r2.encode(), page_pos).map_err(mk)?;
+                words_in_page = 0;
+                let ihw = feed(&mut st, &words::ihw(0x7), &mut words_in_page, page_pos)?;
+                let cont = words::Tdh { continuation: true, no_data: false, ..tdh };
+                let c = feed(&mut st, &cont.encode(), &mut words_in_page, page_pos)?;
+                let d1 = feed(&mut st, &frame[1], &mut words_in_page, page_pos)?;
+                let d2 = feed(&mut st, &frame[2], &mut words_in_page, page_pos)?;
+                let t = feed(&mut st, &words::Tdt::done(true), &mut words_in_page, page_pos)?;
+                for x in [ihw, c, d1, d2, t] {
+                    spurious |= x.0 | x.1;
+                }
+                if last && spurious {
+                    return Err(Viol {
+                        signature: "period:E45:false-alarm:continuation".into(),
+                        description: format!("period {}: E45 reported inside a readout frame continued over two pages (the continuation TDH repeats the BC of its trigger, it is not a new trigger) [TDH history {:?}]", self.period, hist),
+                    });
+                }
             }
         }
         let fp = st.v.verif_fingerprint();
@@ -267,7 +314,7 @@ pub fn run(tier: Tier) -> i32 {
         bcs.sort();
         bcs.dedup();
         let sys = PeriodProduct { period: p, bcs };
-        let xr = xs::bfs(&sys, 12, 200_000, false);
+        let xr = xs::bfs(&sys, 12, 400_000, false);
         states += xr.states;
         transitions += xr.transitions;
         fix &= xr.fixpoint;
